@@ -194,6 +194,9 @@ pub mod life {
         if first { drop(rx); } else if let Some(r) = rx2 { drop(r); core::mem::forget(rx); } else { drop(rx); }
         // after the first drop: values must still be there iff another receiver handle is alive
         let other_alive = cloned;
+        if (p & P08) != 0 && other_alive {
+            assert!(tag_drops(1) == 0 && tag_drops(2) == 0, "C08 shared mpmc: buffered values were discarded while a receiver handle can still reach them");
+        }
         if (p & P11) != 0 {
             if other_alive {
                 assert!(tag_drops(1) == 0 && tag_drops(2) == 0, "C11 mpmc: buffered values were discarded although a receiver handle is still alive");
@@ -456,6 +459,12 @@ pub mod life {
         fn life_mpmc_discard() {
             let b = mpmc_discard::<NL, _>(&mut KaniSrc, P11);
             kani::cover!(b & 3 == 2 && (b >> 3) == 1, "W discard: two values buffered, closed by the sender before the last receiver goes");
+        }
+        #[kani::proof]
+        #[kani::unwind(4)]
+        fn life_mpmc_discard_c08() {
+            let b = mpmc_discard::<NL, _>(&mut KaniSrc, P08);
+            kani::cover!((b >> 2) & 1 == 1 && b & 3 == 2, "W discard: a receiver clone exists while two values are buffered");
         }
         #[kani::proof]
         #[kani::unwind(4)]
